@@ -13,7 +13,7 @@ from anytree.exporter import MermaidExporter
 from .. import forest, refs, shapes, strategies
 from ..core import Violation
 from . import c06
-from .c12 import check_gc, check_tall, check_locale, NAME, NODE_CLASSES, TOKEN, decode_name, exotic_names, aborted_iterations, esc, expected_structure, falsify, fractional, readings, special_names, tripwired
+from .c12 import check_gc, check_tall, decode_level, check_locale, NAME, NODE_CLASSES, TOKEN, decode_name, exotic_names, aborted_iterations, esc, expected_structure, falsify, fractional, readings, special_names, tripwired
 
 PROP_ID = "C13"
 LEVEL = "exploration"
@@ -35,6 +35,7 @@ ASSUMPTIONS = [
 
 
 def check_case(case, acc):
+    case = decode_level(case)
     if case.get("kind") == "locale":
         return check_locale(case, acc)
     if case.get("kind") == "tall":
@@ -300,7 +301,7 @@ def random_cases(draw):
         "start": draw(st.one_of(st.just(0), st.integers(0, size - 1))),
         "stop": draw(strategies.subsets_of(size, max_size=3)),
         "hide": draw(strategies.subsets_of(size, max_size=4)),
-        "maxlevel": draw(st.one_of(st.none(), st.integers(0, 6))),
+        "maxlevel": draw(st.one_of(st.none(), st.integers(0, 6), st.integers(0, 6), st.sampled_from([{"inf": 1}, 2 ** 70, True]))),
         "truth": draw(st.integers(0, 3)),
         "positional": draw(st.integers(0, 3)) == 0,
         "to_file": draw(st.integers(0, 9)) == 0 and not any(isinstance(n, str) and any(0xD800 <= ord(ch) <= 0xDFFF for ch in n) for n in names),
